@@ -117,6 +117,15 @@ pub fn generate(tier: &str, rng: &mut Rng) -> Vec<String> {
         "e2e L sfS cdcc",
         "e2e E Sfs dcc",
         "e2e L S ddcdd",
+        // witnesses of the connect-error classification defect (handshake failure / connect
+        // timeout used to surface as UNKNOWN): kept so that a regression is reported
+        "e2e L XS cc",
+        "e2e E X c",
+        "e2e L TS cc",
+        "e2e E T c",
+        "e2e E STS dcc",
+        "e2e L SXS cdcc",
+        "e2e E SXTFS dcccc",
     ] {
         out.push(c.to_string());
     }
@@ -194,7 +203,7 @@ pub fn generate(tier: &str, rng: &mut Rng) -> Vec<String> {
     // ---- e2e: every fault script up to the bound ----
     // ops over {c,d} up to length n; connector outcomes over {F,S}, one per possible attempt
     // (at most #calls + 1 attempts can happen), so no script ever runs past its outcome list.
-    let ops_max = if thorough { 6 } else { 4 };
+    let ops_max = if thorough { 8 } else { 5 };
     for m in modes {
         for ops in all_strings_upto(&['c', 'd'], ops_max) {
             let calls = ops.matches('c').count();
@@ -204,14 +213,37 @@ pub fn generate(tier: &str, rng: &mut Rng) -> Vec<String> {
             }
         }
     }
-    // delayed outcomes (Pending paths through the real Buffer / hyper handshake), random long
-    let n = if thorough { 1500 } else { 150 };
+    // the same with all four ways an attempt can end (refused, served, peer gone before the
+    // HTTP/2 handshake, connect timeout), smaller bound
+    let ops_max = if thorough { 5 } else { 3 };
+    for m in modes {
+        for ops in all_strings_upto(&['c', 'd'], ops_max) {
+            let calls = ops.matches('c').count();
+            let attempts = calls + if m == "E" { 1 } else { 0 };
+            for outs in all_strings(&['F', 'S', 'X', 'T'], attempts) {
+                if outs.contains('X') || outs.contains('T') {
+                    out.push(format!("e2e {} {} {}", m, tok(&outs), tok(&ops)));
+                }
+            }
+        }
+    }
+    // delayed outcomes (Pending paths through the real Buffer / hyper handshake), random long;
+    // outcome lists may be shorter than the number of attempts (then: refused)
+    let n = if thorough { 4000 } else { 300 };
     for _ in 0..n {
         let m = *rng.pick(&modes);
-        let olen = rng.range(1, if thorough { 14 } else { 9 }) as usize;
-        let ops = rand_string(rng, &[('c', 3), ('d', 2)], olen);
+        let olen = rng.range(1, if thorough { 16 } else { 10 }) as usize;
+        let ops = match rng.below(3) {
+            0 => rand_string(rng, &[('c', 3), ('d', 2)], olen),
+            1 => rand_string(rng, &[('c', 1), ('d', 1)], olen),
+            _ => rand_string(rng, &[('c', 5), ('d', 1)], olen),
+        };
         let alen = rng.range(0, olen as u64 + 1) as usize;
-        let outs = rand_string(rng, &[('F', 3), ('S', 3), ('f', 2), ('s', 2)], alen);
+        let outs = match rng.below(3) {
+            0 => rand_string(rng, &[('F', 3), ('S', 3), ('f', 2), ('s', 2)], alen),
+            1 => rand_string(rng, &[('F', 2), ('S', 4), ('X', 1), ('T', 1), ('f', 1), ('s', 2), ('x', 1), ('t', 1)], alen),
+            _ => rand_string(rng, &[('F', 4), ('S', 1), ('X', 2), ('T', 2), ('s', 1)], alen),
+        };
         out.push(format!("e2e {} {} {}", m, tok(&outs), tok(&ops)));
     }
     out
